@@ -190,6 +190,7 @@ def run(ctx):
             pws += gen_passwords.CASED_SYMBOL_CORPUS      # symbols that str.lower() changes, in front of / behind letter runs
             pws += gen_passwords.CONTEXT_CASE_CORPUS      # context strings in a capitalisation the trainer's list does not contain
             pws += gen_passwords.REPEATED_CONTEXT_CORPUS  # the same context string several times in one section
+            pws += gen_passwords.DETECTOR_ORDER_CORPUS    # several detectors in one password, labelled sections before and behind
         if i == 2:
             pws = gen_passwords.FRESH_LENGTHS_CORPUS + pws
         if not tame:
